@@ -79,28 +79,28 @@ end Lfu
 
 -- minEntry --------------------------------------------------------------------------------
 
-theorem minEntry_none (est : Nat → Int) (s : List (Nat × Int)) : minEntry est s = none ↔ s = [] := by
+theorem minEntryFirst_none (est : Nat → Int) (s : List (Nat × Int)) : minEntryFirst est s = none ↔ s = [] := by
   cases s with
-  | nil => simp [minEntry]
+  | nil => simp [minEntryFirst]
   | cons p rest =>
-    simp only [minEntry]
-    cases minEntry est rest with
+    simp only [minEntryFirst]
+    cases minEntryFirst est rest with
     | none => simp
     | some r => obtain ⟨i, q, h⟩ := r; simp only; split <;> simp
 
 /-- the chosen entry is in the sample, carries the minimum estimate of the whole sample -/
-theorem minEntry_spec (est : Nat → Int) (s : List (Nat × Int)) (i : Nat) (q : Nat × Int) (h : Int)
-    (hm : minEntry est s = some (i, q, h)) :
+theorem minEntryFirst_spec (est : Nat → Int) (s : List (Nat × Int)) (i : Nat) (q : Nat × Int) (h : Int)
+    (hm : minEntryFirst est s = some (i, q, h)) :
     s[i]? = some q ∧ h = est q.1 ∧ ∀ p ∈ s, h ≤ est p.1 := by
   induction s generalizing i q h with
-  | nil => simp [minEntry] at hm
+  | nil => simp [minEntryFirst] at hm
   | cons p rest ih =>
-    simp only [minEntry] at hm
-    cases hr : minEntry est rest with
+    simp only [minEntryFirst] at hm
+    cases hr : minEntryFirst est rest with
     | none =>
       simp only [hr, Option.some.injEq, Prod.mk.injEq] at hm
       obtain ⟨rfl, rfl, rfl⟩ := hm
-      have : rest = [] := (minEntry_none est rest).mp hr
+      have : rest = [] := (minEntryFirst_none est rest).mp hr
       subst this
       exact ⟨rfl, rfl, by simp⟩
     | some r =>
@@ -126,6 +126,48 @@ theorem minEntry_spec (est : Nat → Int) (s : List (Nat × Int)) (i : Nat) (q :
         rcases hx with rfl | hx
         · omega
         · exact h3 x hx
+
+theorem minEntry_none (est : Nat → Int) (s : List (Nat × Int)) : minEntry est s = none ↔ s = [] := by
+  unfold minEntry
+  cases hf : minEntryFirst est s with
+  | none => simpa using (minEntryFirst_none est s).mp hf
+  | some r =>
+    obtain ⟨i, q, h⟩ := r
+    have hne : s ≠ [] := fun he => by
+      have := (minEntryFirst_none est s).mpr he
+      rw [this] at hf; cases hf
+    simp only
+    cases s[tiePick est s]? with
+    | none => simpa using hne
+    | some q' => simp only; split <;> simpa using hne
+
+/-- the chosen entry is in the sample and carries the minimum estimate of the whole sample — whichever of
+the equally unpopular entries the tie-break oracle proposed -/
+theorem minEntry_spec (est : Nat → Int) (s : List (Nat × Int)) (i : Nat) (q : Nat × Int) (h : Int)
+    (hm : minEntry est s = some (i, q, h)) :
+    s[i]? = some q ∧ h = est q.1 ∧ ∀ p ∈ s, h ≤ est p.1 := by
+  unfold minEntry at hm
+  cases hf : minEntryFirst est s with
+  | none => simp [hf] at hm
+  | some r =>
+    obtain ⟨i0, q0, h0⟩ := r
+    obtain ⟨h1, h2, h3⟩ := minEntryFirst_spec est s i0 q0 h0 hf
+    simp only [hf] at hm
+    cases hp : s[tiePick est s]? with
+    | none =>
+      simp only [hp, Option.some.injEq, Prod.mk.injEq] at hm
+      obtain ⟨rfl, rfl, rfl⟩ := hm
+      exact ⟨h1, h2, h3⟩
+    | some q' =>
+      simp only [hp] at hm
+      split at hm
+      · rename_i heq
+        simp only [Option.some.injEq, Prod.mk.injEq] at hm
+        obtain ⟨rfl, rfl, rfl⟩ := hm
+        exact ⟨hp, heq.symm, h3⟩
+      · simp only [Option.some.injEq, Prod.mk.injEq] at hm
+        obtain ⟨rfl, rfl, rfl⟩ := hm
+        exact ⟨h1, h2, h3⟩
 
 end Stretto
 
